@@ -1262,6 +1262,10 @@ class Engine:
                 for key, val in v.items():
                     st = st.assume(gi(d, self.to_v(key)) == self.to_v(val))
                 v = Opq(d)
+            if isinstance(v, Closure) and (self.cur.local_sorts if self.cur else {}).get(tgt.id) == "V":
+                c = self.fresh("function", "V")
+                st = st.assume(truthy(c))       # a function object is truthy
+                v = Opq(c)
             v = self.coerce_local(tgt.id, v)
             return k(st.bind(tgt.id, v))
         if isinstance(tgt, (ast.Tuple, ast.List)):
